@@ -91,7 +91,8 @@ class FaultRun(object):
     """
 
     def __init__(self, inst, opts, plan=(), time_limit=None, mode='eb', choices=(), salt=0,
-                 steps_ms=(1,)):
+                 steps_ms=(1,), warmup=False):
+        self.warmup = warmup
         self.inst, self.opts = inst, opts
         self.plan = list(plan)
         self.time_limit = time_limit
@@ -155,6 +156,15 @@ class FaultRun(object):
                                           salt=self.salt)
         with owned_clock(self.clock):
             self.solver = solverio.make_solver(argv)
+            if self.warmup:
+                # a fault-free solve and a round of getters on the same object first: nothing
+                # of it may survive into the results of the faulted solve
+                with refbackend.Backend(self.mode, self.choices, salt=self.salt,
+                                        keep_sets=False):
+                    call_repo('solve()', self.solver.solve, msg=False,
+                              timeLimit=self.time_limit, threads=None, write=False)
+                call_repo('get_results()', self.solver.get_results)
+                call_repo('get_results_long()', self.solver.get_results_long)
             with self.backend:
                 call_repo('solve()', self.solver.solve, msg=False, timeLimit=self.time_limit,
                           threads=None, write=False)
